@@ -3,7 +3,9 @@
 //
 // For every catalogue entry (catalogue.go: one per GroupVersionKind registered in the plugins hub,
 // plus chains) and every replica count n in 1..3 it executes schedules - sequences of
-// Reconcile(pod) and ForeignUpdate(group, field) steps exported by TLC from spec/Grouper.tla (all
+// Reconcile(pod), ForeignUpdate(group, field), OwnerChange / OwnerSet (an owner label or annotation
+// added, changed, removed) and ReconcileRaced(pod, field) (a foreign update forced between the
+// reconciler's Get and Update of the PodGroup) steps exported by TLC from spec/Grouper.tla (all
 // transitions of the schedule graph) or drawn at random (-random N -seed S) - each in a fresh
 // store, and logs after every step: which pod was reconciled, the number of mutating client calls
 // by verb and by kind, the projection of the PodGroup objects (derived + foreign fields) and the
@@ -28,6 +30,7 @@ import (
 	"github.com/go-logr/logr"
 	v1 "k8s.io/api/core/v1"
 	schedulingv1 "k8s.io/api/scheduling/v1"
+	apierrors "k8s.io/apimachinery/pkg/api/errors"
 	metav1 "k8s.io/apimachinery/pkg/apis/meta/v1"
 	"k8s.io/apimachinery/pkg/apis/meta/v1/unstructured"
 	"k8s.io/apimachinery/pkg/runtime"
@@ -50,16 +53,22 @@ import (
 )
 
 type step struct {
-	N string `json:"n"` // "Reconcile" | "Foreign" | "Owner" (F: "l" label / "a" annotation)
-	P int    `json:"p"` // pod index (1-based) for Reconcile
-	G int    `json:"g"` // group index (1-based) for Foreign
-	F string `json:"f"` // queue | mark | backoff | nodepool
+	N string `json:"n"` // "Reconcile" | "Raced" | "Foreign" | "Owner"
+	P int    `json:"p"` // pod index (1-based) for Reconcile / Raced
+	G int    `json:"g"` // group index (1-based) for Foreign; Owner pe / pr: the label's new state (0 removed, 1, 2)
+	F string `json:"f"` // Foreign / Raced: queue | mark | backoff | nodepool | stamp; Owner: l | a | pe | pr
 }
 
 type schedule struct {
 	Shape    []int  `json:"shape"`
 	Steps    []step `json:"steps"`
 	Skeleton int    `json:"skeleton"` // 1: always executed; 0: subject to -cap sampling
+	Lab      int    `json:"lab"`      // the install the schedule starts from: 0 plain, 1 labelled, 2 either
+}
+
+type sched struct {
+	steps []step
+	lab   int
 }
 
 var fields = []string{"queue", "mark", "backoff", "nodepool", "stamp"}
@@ -69,6 +78,16 @@ const (
 	ownerAnnKey   = "verif/owner-ann"
 	stampKey      = "kai.scheduler/last-start-timestamp" // written on the PodGroup by the scheduler
 )
+
+// the owner labels a derived spec field follows (Grouper!OwnerSet): key and the values of label state 1 and 2
+// (state 1 = what labelTop puts on a labelled install)
+var ownerSets = map[string]struct {
+	key  string
+	vals [3]string
+}{
+	"pe": {"kai.scheduler/preemptibility", [3]string{"", "non-preemptible", "preemptible"}},
+	"pr": {"priorityClassName", [3]string{"", "build", "inference"}},
+}
 
 // setUnexported sets an unexported struct field (the reconciler's dependencies are normally
 // injected by SetupWithManager, which needs a live manager; nothing in /repo is changed).
@@ -99,6 +118,16 @@ type world struct {
 	w       *workload
 	fcount  map[string]int // (group,field) -> number of foreign updates so far; "owner/l", "owner/a"
 	gangKnt bool
+	// race: armed by raced(): the foreign update to force in front of the reconciler's next Update of that PodGroup
+	race *race
+}
+
+type race struct {
+	g     int
+	f     string
+	fired bool
+	k     int
+	err   error
 }
 
 // newScheme: deliberately small - the fake client's field-managed tracker rebuilds a REST mapper
@@ -148,7 +177,22 @@ func newWorld(w *workload, scheme *runtime.Scheme) *world {
 	setUnexported(r, "configs", configs)
 	var rec record.EventRecorder = &record.FakeRecorder{}
 	setUnexported(r, "eventRecorder", rec)
-	return &world{c: c, k: k, r: r, hub: hub, w: w, fcount: map[string]int{}}
+	wd := &world{c: c, k: k, r: r, hub: hub, w: w, fcount: map[string]int{}}
+	// the reconciler is about to Update a PodGroup (it has read it before): if a race is armed for it, the
+	// foreign actor's update reaches the store first, then the reconciler's Update is let through to the
+	// store's optimistic concurrency check (stale resourceVersion -> 409 Conflict).
+	k.BeforeUpdate = func(ctx context.Context, inner client.WithWatch, obj client.Object) {
+		rc := wd.race
+		if rc == nil || rc.fired {
+			return
+		}
+		if pg, ok := obj.(*v2alpha2.PodGroup); !ok || pg.Name != wd.w.exp[rc.g-1].Name {
+			return
+		}
+		rc.fired = true
+		rc.k, rc.err = wd.applyForeign(ctx, inner, rc.g, rc.f)
+	}
+	return wd
 }
 
 func subString(sgs []v2alpha2.SubGroup) string {
@@ -271,54 +315,96 @@ func (wd *world) reconcile(p int) map[string]any {
 		"groups": groups, "pods": pods, "extra": extra}
 }
 
-// foreign: another actor (scheduler / pod-group-assigner / admin) changes a field it owns.
-func (wd *world) foreign(g int, f string) map[string]any {
-	ctx := context.Background()
+// applyForeign: another actor (scheduler / pod-group-assigner / admin) reads the PodGroup, changes a field it
+// owns and updates it, through client c. Returns the ordinal of this update of (group, field).
+func (wd *world) applyForeign(ctx context.Context, c client.Client, g int, f string) (int, error) {
 	key := fmt.Sprintf("%d/%s", g, f)
 	wd.fcount[key]++
 	k := wd.fcount[key]
 	var pg v2alpha2.PodGroup
+	if err := c.Get(ctx, types.NamespacedName{Namespace: ns, Name: wd.w.exp[g-1].Name}, &pg); err != nil {
+		return k, err
+	}
+	switch f {
+	case "queue":
+		pg.Spec.Queue = fmt.Sprintf("fq%d", k)
+	case "mark":
+		pg.Spec.MarkUnschedulable = ptr.To(k%2 == 1)
+	case "backoff":
+		b := int32(1) // the only supported values are -1 and 1 (Grouper!FVal)
+		if k == 1 {
+			b = -1
+		}
+		pg.Spec.SchedulingBackoff = ptr.To(b)
+	case "nodepool":
+		if pg.Labels == nil {
+			pg.Labels = map[string]string{}
+		}
+		pg.Labels[nodePoolKey] = fmt.Sprintf("pool-f%d", k)
+	case "stamp":
+		if pg.Annotations == nil {
+			pg.Annotations = map[string]string{}
+		}
+		pg.Annotations[stampKey] = fmt.Sprintf("ts%d", k)
+	}
+	return k, c.Update(ctx, &pg)
+}
+
+// foreign: a foreign update between two reconciles.
+func (wd *world) foreign(g int, f string) map[string]any {
 	errs := ""
-	if err := wd.c.Get(ctx, types.NamespacedName{Namespace: ns, Name: wd.w.exp[g-1].Name}, &pg); err != nil {
+	k, err := wd.applyForeign(context.Background(), wd.c, g, f)
+	if err != nil {
 		errs = err.Error()
-	} else {
-		switch f {
-		case "queue":
-			pg.Spec.Queue = fmt.Sprintf("fq%d", k)
-		case "mark":
-			pg.Spec.MarkUnschedulable = ptr.To(k%2 == 1)
-		case "backoff":
-			b := int32(1) // the only supported values are -1 and 1 (Grouper!FVal)
-			if k == 1 {
-				b = -1
-			}
-			pg.Spec.SchedulingBackoff = ptr.To(b)
-		case "nodepool":
-			if pg.Labels == nil {
-				pg.Labels = map[string]string{}
-			}
-			pg.Labels[nodePoolKey] = fmt.Sprintf("pool-f%d", k)
-		case "stamp":
-			if pg.Annotations == nil {
-				pg.Annotations = map[string]string{}
-			}
-			pg.Annotations[stampKey] = fmt.Sprintf("ts%d", k)
-		}
-		if err := wd.c.Update(ctx, &pg); err != nil {
-			errs = err.Error()
-		}
 	}
 	groups, pods, extra := wd.project()
 	return map[string]any{"ev": "Foreign", "p": 0, "g": g, "f": f, "k": k, "err": errs, "create": 0, "update": 0, "patch": 0, "delete": 0, "empty": 0,
 		"wpg": 0, "wpod": 0, "wother": 0, "groups": groups, "pods": pods, "extra": extra}
 }
 
-// ownerChange: the user adds (first time) or changes a label / annotation on the object the PodGroups
-// inherit their metadata from. A legitimate external change of the workload.
-func (wd *world) ownerChange(kind string) map[string]any {
+// raced: Reconcile(p) with a foreign update of field f of p's PodGroup landing after the reconciler's Get of the
+// PodGroup and before its Update (forced in the client's Update interceptor, see newWorld). fired = 0: the
+// reconcile issued no PodGroup Update (nothing to write), it was an ordinary reconcile. cf = 1: the reconcile
+// returned a 409 Conflict error (the controller's work queue would retry it: the schedule's next Reconcile step).
+func (wd *world) raced(p int, f string) map[string]any {
+	g := wd.w.groupOf[p-1]
+	wd.race = &race{g: g, f: f}
+	pod := wd.w.pods[p-1]
+	wd.k.Start()
+	_, err := wd.r.Reconcile(context.Background(), ctrl.Request{NamespacedName: types.NamespacedName{Namespace: ns, Name: pod.Name}})
+	cnt := wd.k.Stop()
+	rc := wd.race
+	wd.race = nil
+	groups, pods, extra := wd.project()
+	errs, cf, fired, k := "", 0, 0, 0
+	if err != nil {
+		errs = err.Error()
+		if apierrors.IsConflict(err) {
+			cf = 1
+		}
+	}
+	if rc.fired {
+		fired, k = 1, rc.k
+		if rc.err != nil {
+			errs, cf = "foreign update inside the race failed: "+rc.err.Error(), 0
+		}
+	}
+	wpg, wpod := cnt.ByKind["PodGroup"], cnt.ByKind["Pod"]
+	return map[string]any{"ev": "Raced", "p": p, "g": g, "f": f, "k": k, "fired": fired, "cf": cf, "err": errs, "create": cnt.Create, "update": cnt.Update,
+		"patch": cnt.Patch, "delete": cnt.Delete, "empty": cnt.EmptyPatch, "wpg": wpg, "wpod": wpod, "wother": cnt.Effective() - wpg - wpod,
+		"groups": groups, "pods": pods, "extra": extra}
+}
+
+// ownerChange: the user edits the metadata of the object the PodGroups inherit from - a legitimate external
+// change of the workload. kind l / a: a label / annotation is added (first time) or changed; kind pe / pr: the
+// preemptibility / priority class label is put into state v (0 = removed, 1, 2 = ownerSets values).
+func (wd *world) ownerChange(kind string, v int) map[string]any {
 	ctx := context.Background()
-	wd.fcount["owner/"+kind]++
-	k := wd.fcount["owner/"+kind]
+	k := v
+	if _, set := ownerSets[kind]; !set {
+		wd.fcount["owner/"+kind]++
+		k = wd.fcount["owner/"+kind]
+	}
 	errs := ""
 	if wd.w.meta == nil {
 		errs = "catalogue entry has no metadata owner"
@@ -328,20 +414,26 @@ func (wd *world) ownerChange(kind string) map[string]any {
 		if err := wd.c.Get(ctx, types.NamespacedName{Namespace: ns, Name: wd.w.meta.GetName()}, cur); err != nil {
 			errs = err.Error()
 		} else {
-			if kind == "l" {
-				l := cur.GetLabels()
-				if l == nil {
-					l = map[string]string{}
-				}
-				l[ownerLabelKey] = fmt.Sprintf("v%d", k)
-				cur.SetLabels(l)
-			} else {
+			if kind == "a" {
 				a := cur.GetAnnotations()
 				if a == nil {
 					a = map[string]string{}
 				}
 				a[ownerAnnKey] = fmt.Sprintf("v%d", k)
 				cur.SetAnnotations(a)
+			} else {
+				l := cur.GetLabels()
+				if l == nil {
+					l = map[string]string{}
+				}
+				if os, set := ownerSets[kind]; !set {
+					l[ownerLabelKey] = fmt.Sprintf("v%d", k)
+				} else if v == 0 {
+					delete(l, os.key)
+				} else {
+					l[os.key] = os.vals[v]
+				}
+				cur.SetLabels(l)
 			}
 			if err := wd.c.Update(ctx, cur); err != nil {
 				errs = err.Error()
@@ -349,7 +441,7 @@ func (wd *world) ownerChange(kind string) map[string]any {
 		}
 	}
 	groups, pods, extra := wd.project()
-	return map[string]any{"ev": "Owner", "p": 0, "g": 0, "f": kind, "k": k, "err": errs, "create": 0, "update": 0, "patch": 0, "delete": 0, "empty": 0,
+	return map[string]any{"ev": "Owner", "p": 0, "g": v, "f": kind, "k": k, "err": errs, "create": 0, "update": 0, "patch": 0, "delete": 0, "empty": 0,
 		"wpg": 0, "wpod": 0, "wother": 0, "groups": groups, "pods": pods, "extra": extra}
 }
 
@@ -367,6 +459,10 @@ func schedString(steps []step) string {
 	for _, s := range steps {
 		if s.N == "Reconcile" {
 			parts = append(parts, fmt.Sprintf("R%d", s.P))
+		} else if s.N == "Raced" {
+			parts = append(parts, fmt.Sprintf("X%d%s", s.P, s.F))
+		} else if _, set := ownerSets[s.F]; s.N == "Owner" && set {
+			parts = append(parts, fmt.Sprintf("O%s%d", s.F, s.G))
 		} else if s.N == "Owner" {
 			parts = append(parts, "O"+s.F)
 		} else {
@@ -393,14 +489,19 @@ func runOne(out emitter, scheme *runtime.Scheme, e entry, n int, labelled bool, 
 	if w.meta != nil {
 		own = 1
 	}
+	// expo: what a fresh grouping looks like for every state of the owner's editable scheduling labels; ov0: the
+	// state the workload is installed in
 	out.Emit(map[string]any{"ev": "Scenario", "id": id, "class": e.id, "kind": e.id, "n": n, "labelled": lab, "owner": own, "grp": w.groupOf, "exp": w.exp, "expsub": w.expSub,
-		"sched": schedString(steps)})
+		"expo": ownerExpectations(e.build(n, false), e.build(n, true), w), "ov0": lab, "sched": schedString(steps)})
 	for _, s := range steps {
-		if s.N == "Reconcile" {
+		switch s.N {
+		case "Reconcile":
 			out.Emit(wd.reconcile(s.P))
-		} else if s.N == "Owner" {
-			out.Emit(wd.ownerChange(s.F))
-		} else {
+		case "Raced":
+			out.Emit(wd.raced(s.P, s.F))
+		case "Owner":
+			out.Emit(wd.ownerChange(s.F, s.G))
+		default:
 			out.Emit(wd.foreign(s.G, s.F))
 		}
 	}
@@ -408,7 +509,7 @@ func runOne(out emitter, scheme *runtime.Scheme, e entry, n int, labelled bool, 
 
 func shapeKey(s []int) string { return fmt.Sprint(s) }
 
-func randomSchedule(r *rand.Rand, shape []int, length, maxForeign int, withOwner bool) []step {
+func randomSchedule(r *rand.Rand, shape []int, length, maxForeign int, withOwner bool, lab int) []step {
 	nOwner := 0
 	ng := 0
 	for _, g := range shape {
@@ -420,6 +521,8 @@ func randomSchedule(r *rand.Rand, shape []int, length, maxForeign int, withOwner
 	steps := []step{}
 	nf := 0
 	perField := map[string]int{}
+	ownerState := map[string]int{"pe": lab, "pr": lab}
+	pending := map[int]bool{} // groups with an owner change no reconcile has seen yet: a reconcile has something to write
 	for len(steps) < length {
 		if nf < maxForeign && len(exists) > 0 && r.Intn(3) == 0 {
 			gs := []int{}
@@ -436,13 +539,34 @@ func randomSchedule(r *rand.Rand, shape []int, length, maxForeign int, withOwner
 			nf++
 			continue
 		}
-		if withOwner && nOwner < 2 && r.Intn(6) == 0 {
+		if withOwner && nOwner < 2 && r.Intn(5) == 0 {
 			nOwner++
-			steps = append(steps, step{N: "Owner", F: []string{"l", "a"}[r.Intn(2)]})
+			kind := []string{"l", "a", "pe", "pr"}[r.Intn(4)]
+			st := step{N: "Owner", F: kind}
+			if cur, set := ownerState[kind]; set {
+				st.G = (cur + 1 + r.Intn(2)) % 3 // one of the two other states: set / change / remove
+				ownerState[kind] = st.G
+			}
+			steps = append(steps, st)
+			for g := range exists {
+				pending[g] = true
+			}
 			continue
 		}
 		p := 1 + r.Intn(len(shape))
-		exists[shape[p-1]] = true
+		g := shape[p-1]
+		// the reconcile that carries an owner change to an existing PodGroup: half of the time raced by a foreign update
+		if pending[g] && exists[g] && nf < maxForeign && r.Intn(2) == 0 {
+			f := fields[r.Intn(len(fields))]
+			if perField[fmt.Sprint(g, f)] < 2 {
+				perField[fmt.Sprint(g, f)]++
+				nf++
+				steps = append(steps, step{N: "Raced", P: p, F: f})
+				continue // not completed (409): the change is still pending
+			}
+		}
+		exists[g] = true
+		delete(pending, g)
 		steps = append(steps, step{N: "Reconcile", P: p})
 	}
 	return steps
@@ -516,8 +640,17 @@ func main() {
 				var p int
 				fmt.Sscan(tok[1:], &p)
 				steps = append(steps, step{N: "Reconcile", P: p})
+			} else if tok[0] == 'X' {
+				var p int
+				fmt.Sscan(tok[1:2], &p)
+				steps = append(steps, step{N: "Raced", P: p, F: tok[2:]})
 			} else if tok[0] == 'O' {
-				steps = append(steps, step{N: "Owner", F: tok[1:]})
+				st := step{N: "Owner", F: tok[1:]}
+				if len(tok) == 4 { // Ope0 / Opr2: owner label set to a state
+					st.F = tok[1:3]
+					fmt.Sscan(tok[3:], &st.G)
+				}
+				steps = append(steps, st)
 			} else {
 				var g int
 				fmt.Sscan(tok[1:2], &g)
@@ -535,8 +668,8 @@ func main() {
 		return
 	}
 
-	byShape := map[string][][]step{}
-	mustShape := map[string][][]step{}
+	byShape := map[string][]sched{}
+	mustShape := map[string][]sched{}
 	if *schedFile != "" {
 		f, err := os.Open(*schedFile)
 		if err != nil {
@@ -550,9 +683,9 @@ func main() {
 				panic(err)
 			}
 			if s.Skeleton == 1 {
-				mustShape[shapeKey(s.Shape)] = append(mustShape[shapeKey(s.Shape)], s.Steps)
+				mustShape[shapeKey(s.Shape)] = append(mustShape[shapeKey(s.Shape)], sched{s.Steps, s.Lab})
 			} else {
-				byShape[shapeKey(s.Shape)] = append(byShape[shapeKey(s.Shape)], s.Steps)
+				byShape[shapeKey(s.Shape)] = append(byShape[shapeKey(s.Shape)], sched{s.Steps, s.Lab})
 			}
 		}
 	}
@@ -582,16 +715,18 @@ func main() {
 				shape := wl.groupOf
 				withOwner := wl.meta != nil
 				scheds := [][]step{}
-				for _, st := range byShape[shapeKey(shape)] {
-					if withOwner || !hasOwnerStep(st) {
-						scheds = append(scheds, st)
+				// a schedule applies to the install (plain / labelled) it was generated from: its owner-label
+				// steps are set / change / remove relative to that state
+				for _, sc := range byShape[shapeKey(shape)] {
+					if (withOwner || !hasOwnerStep(sc.steps)) && (sc.lab == 2 || sc.lab == lab) {
+						scheds = append(scheds, sc.steps)
 					}
 				}
-				for i, st := range mustShape[shapeKey(shape)] {
-					if !withOwner && hasOwnerStep(st) {
+				for i, sc := range mustShape[shapeKey(shape)] {
+					if (!withOwner && hasOwnerStep(sc.steps)) || (sc.lab != 2 && sc.lab != lab) {
 						continue
 					}
-					jobs = append(jobs, &job{e: e, n: n, lab: lab == 1, steps: st, id: fmt.Sprintf("%s/n%d/l%d/k%d", e.id, n, lab, i)})
+					jobs = append(jobs, &job{e: e, n: n, lab: lab == 1, steps: sc.steps, id: fmt.Sprintf("%s/n%d/l%d/k%d", e.id, n, lab, i)})
 				}
 				if *schedFile != "" && len(scheds) == 0 && len(mustShape[shapeKey(shape)]) == 0 {
 					panic(fmt.Sprintf("no TLC schedules for shape %v (kind %s n=%d)", shape, e.id, n))
@@ -605,7 +740,7 @@ func main() {
 					jobs = append(jobs, &job{e: e, n: n, lab: lab == 1, steps: scheds[i], id: fmt.Sprintf("%s/n%d/l%d/s%d", e.id, n, lab, i)})
 				}
 				for i := 0; i < *random; i++ {
-					jobs = append(jobs, &job{e: e, n: n, lab: lab == 1, steps: randomSchedule(r, shape, *rlen, 3, withOwner), id: fmt.Sprintf("%s/n%d/l%d/r%d-%d", e.id, n, lab, *seed, i)})
+					jobs = append(jobs, &job{e: e, n: n, lab: lab == 1, steps: randomSchedule(r, shape, *rlen, 3, withOwner, lab), id: fmt.Sprintf("%s/n%d/l%d/r%d-%d", e.id, n, lab, *seed, i)})
 				}
 				shapesSeen[shapeKey(shape)]++
 			}
